@@ -384,10 +384,90 @@ def chain_component_rules(rep, prog):
     rep.check("CC.start", start, fwhere(f), "the search starts from {i}", "the search does not start from the node i")
 
 
+def eval_rounds(t, p, A=("param", "A")):
+    """value of an integer expression in p = len(A) (the number of squarings): the operations such an expression is written with"""
+    import math
+    k = t[0]
+    if k == "const":
+        return t[1]
+    if t == ("ext", "len", (A,), ()) or (k == "sub" and t[1] == ("attr", A, "shape") and is_const(t[2]) and t[2][1] in (0, 1)):
+        return p
+    if k == "binop":
+        a, b = eval_rounds(t[2], p, A), eval_rounds(t[3], p, A)
+        return {"+": lambda: a + b, "-": lambda: a - b, "*": lambda: a * b, "//": lambda: a // b, "/": lambda: a / b, "**": lambda: a ** b}[t[1]]()
+    if k == "ext" and len(t[2]) >= 1 and not [kv for kv in t[3] if kv[0] != "$draw"]:
+        xs = [eval_rounds(x, p, A) for x in t[2]]
+        fns = {"int": lambda x: int(x), "numpy.ceil": math.ceil, "math.ceil": math.ceil, "numpy.floor": math.floor, "math.floor": math.floor, "numpy.log2": math.log2, "math.log2": math.log2,
+               "max": max, "min": min, "round": round, "abs": abs, "numpy.sqrt": math.sqrt, "math.sqrt": math.sqrt}
+        if t[1] in fns:
+            return fns[t[1]](*xs)
+    if k == "method" and t[2] == "bit_length" and not t[3]:
+        return int(eval_rounds(t[1], p, A)).bit_length()
+    if k == "phi":
+        c = t[1]
+        if c[0] == "cmp" and len(c) == 4:
+            a, b = eval_rounds(c[2], p, A), eval_rounds(c[3], p, A)
+            truth = {">": a > b, "<": a < b, ">=": a >= b, "<=": a <= b, "==": a == b, "!=": a != b}[c[1]]
+            return eval_rounds(t[2] if truth else t[3], p, A)
+    raise Inconclusive("number of rounds: %s is not evaluated" % fmt(t)[:60])
+
+
+def closure_by_squaring(rep, S, f, q):
+    """transitive closure by repeated squaring of the boolean pattern: reach = (A != 0); R times reach |= reach @ reach; closure[reach] = 1.
+    After R rounds reach holds the paths of at most 2^R edges, and a path in a DAG on p nodes has at most p - 1: R(p) is evaluated
+    exhaustively for p = 1 .. 1025 (written independently, and one round short, by three seed agents: floor(log2 p)). -> True when this is the form"""
+    A = ("param", "A")
+    loops = [(k, v) for k, v in S.loopinfo.items() if v["func"] == q and v["test"] is None]
+    if len(loops) != 1:
+        return False
+    lid, li = loops[0]
+    it = li["iter"]
+    if not (it[0] == "ext" and it[1] == "range" and len(it[2]) == 1 and not it[3]) or len(li["init"]) != 1:
+        return False
+    (nm, init), = li["init"].items()
+    mu = ("mu", lid, nm)
+    sq = ("binop", "@", mu, mu)
+    nx = li["next"][nm]
+    pat = [("cmp", "!=", A, ("const", 0)), ("method", ("cmp", "!=", A, ("const", 0)), "astype", (("extref", "bool"),), ()), ("method", A, "astype", (("extref", "bool"),), ())]
+    step_ok = nx in (("binop", "|", mu, sq), ("binop", "|", sq, mu), ("ext", "numpy.logical_or", (mu, sq), ()), ("ext", "numpy.logical_or", (sq, mu), ()))
+    if init not in pat or not step_ok:
+        return False
+    stores = S.select("store", qname=q)
+    after = ("after", lid, nm)
+    fill = len(stores) == 1 and stores[0].idx == after and is_const(stores[0].value, 1) and stores[0].aug is None and \
+        stores[0].base == ("ext", "numpy.zeros_like", (A,), ())
+    rep.decide("CLOSURE.store", fill, fwhere(f, stores[0].node if stores else None), "closure = zeros_like(A); closure[reach] = 1 with reach the squared pattern",
+               "the reachability mask is not what is written into the zero matrix")
+    R = it[2][0]
+    try:
+        short = None
+        for p_ in range(1, 1026):
+            try:
+                r_ = eval_rounds(R, p_)
+            except (ValueError, OverflowError, ZeroDivisionError) as e:
+                short = (p_, "the number of rounds cannot be computed (%s)" % type(e).__name__)
+                break
+            if not isinstance(r_, int) or isinstance(r_, bool):
+                short = (p_, "the number of rounds is %r, not an integer" % (r_,))
+                break
+            if p_ >= 2 and 2 ** max(r_, 0) < p_ - 1:
+                short = (p_, "%d squaring(s) cover paths of at most %d edges, a chain on %d nodes has a path of %d" % (max(r_, 0), 2 ** max(r_, 0), p_, p_ - 1))
+                break
+        if short is None:
+            rep.ok("CLOSURE.rounds", fwhere(f, li["node"]), "%s squarings cover paths of p - 1 edges for every p = 1 .. 1025" % fmt(R)[:60])
+        else:
+            rep.bad("CLOSURE.rounds", fwhere(f, li["node"]), "with p = %d nodes: %s (rounds = %s)" % (short[0], short[1], fmt(R)[:60]))
+    except Inconclusive as e:
+        rep.unk("CLOSURE.rounds", fwhere(f, li["node"]), e.why)
+    return True
+
+
 def closure_rules(rep, prog):
     q = U + "transitive_closure"
     f = need(prog, q)
     S = dag_gate(rep, prog, q, "A", rule="GATE.closure")
+    if closure_by_squaring(rep, S, f, q):
+        return
     stores = S.select("store", qname=q)
     loops = [(k, v) for k, v in S.loopinfo.items() if v["func"] == q]
     ok = False
